@@ -6,6 +6,18 @@ TECH = "deterministic simulation: seeded token-passing scheduler over instrument
 CHECKS = {
  "C03": ("exploration", "3/C03", "Seeded search over interleavings of 2-64 simulated client goroutines logging through synchronous loggers onto the simulated console stream and disk (file, rolling file), with adversarial buffer pool (LIFO re-issue), chunked/slow sink reads and both layouts; oracle: every sink write is byte-identical to the stand-alone formatting of exactly one logged event, multiset equality, no duplicates. Decides schedule-dependent corruption that no single-goroutine test can reach; not a proof.",
          "sequentially consistent execution; simos models the kernel copying from the user buffer in chunks; reference formatting uses the library's own layout run alone after quiescence"),
+ "C20": ("fault_enumeration", "3/C20", "Crash points: the simulated OS state (simos inodes, console stream) is monotone, so a SIGKILL/exit after an acknowledged call leaves at least the state at the acknowledgement. The check records the length of every sink at the scheduler step each log call returns and requires the call's complete line inside that prefix: every crash point after every acknowledgement of every explored schedule (1-4 client tasks, file/rolling/console, both layouts) is enumerated. A user-space buffer, deferred write or flush goroutine fails at the first acknowledgement.",
+         "the kernel is modelled by simos (write(2) on O_APPEND is the durability point for process death); no real child process is killed"),
+ "C13": ("exploration", "3/C13", "Seeded search over interleavings of 1-16 writer tasks with clock decisions placed just before/on/after interval boundaries (intervals 1 s..1 h cost nothing on the simulated clock), idle gaps, stop/start cycles, pre-existing files, three time zones; oracle after Stop: every payload exactly once, whole, in one file named <name>.<14 digits>; time order of writes against file name times; single-writer freshness; no truncation.",
+         "simulated clock and disk; a write in flight when Close is called completes (os.File semantics); fault-free disk (faults are C19)"),
+ "C19": ("fault_enumeration", "3/C19", "Fault sequences: directory renamed away/restored, EMFILE/ENOSPC/EACCES on open, placed by the seeded scheduler anywhere relative to 3-6 interval boundaries and the writes of 1-4 tasks; plus file/console/rolling targets that are closed, never opened or fail every write. Oracle: every call returns, no panic, nothing accepted is lost (all inodes incl. the renamed directory are searched), retry at the first boundary after faults stop, no creation storm within an interval, at most two descriptors, none after Stop.",
+         "only open/creation failures and stream write failures are injected; writes to held files succeed"),
+ "C14": ("exploration", "3/C14", "Generated directory populations (own rotated files, prefix-sharing foreign files, unrelated files, sub-directories) with mtimes on both sides of now - maxAge, maxAge 1..720 h, optional sibling .wf appender; the real asynchronous cleanup goroutine runs as a simulated task concurrently with writers and further rotations, optionally with ReadDir/Info/Remove failures. Oracle: survivors equal the expected set in both directions (fault-free) or deviate only toward not deleting (faults).",
+         "mtimes keep a one-hour margin to the cut-off (equality corner not generated)"),
+ "C04": ("exploration", "3/C04", "Seeded search over interleavings of 1-32 producers with the async worker (free, starved, slow or gated item by item), all three policies, bufferSize 100..400, events at enabled/disabled levels and raw writes, 1-3 references; exact counting oracle after Stop: delivered + GetDiscardCounter() = submitted at an enabled level, nothing twice, nothing to a wrong reference, Block => counter 0.",
+         "sequentially consistent execution; non-atomic read-modify-write on fields is split by the instrumenter so lost updates manifest"),
+ "C12": ("exploration", "3/C12", "1-8 writer tasks issue raw writes (empty, binary, multi-line, 64 KiB) through a named handle or a logger's Write while recycling one buffer that is overwritten right after Write returns; sync, async (free/starved/slow/gated worker), Console and File loggers built by Refresh or directly; oracle: every reference receives each writer's call-time snapshots once, in call order, byte-identical; n=len(b), err=nil; same handle for the same name; Refresh fails for an unconfigured requested name.",
+         "at most 100 writes per case so that no overflow policy applies"),
 }
 NA = [
  ("C07", "pure function Event -> bytes; no schedule, clock, fault or shared state for a simulator to own (buffer recycling, its only stateful neighbour, is C03)"),
